@@ -143,8 +143,10 @@ func (k Keeper) RecvPacket(
 			return sdkerrors.ErrUnauthorized
 		}
 
+		// a packet that cannot be forwarded because the destination is unknown here is
+		// answered, like a packet the routing rules do not allow, with an error acknowledgement
 		if _, found = k.clientKeeper.GetClientState(ctx, packet.GetDestChain()); !found {
-			return errorsmod.Wrap(clienttypes.ErrClientNotFound, fromChain)
+			return sdkerrors.ErrUnauthorized
 		}
 
 		k.SetPacketCommitment(ctx, packet.GetSourceChain(), packet.GetDestChain(), packet.GetSequence(), commitment)
